@@ -8,7 +8,7 @@
 #
 import re
 
-from ural.patterns import QUERY_VALUE_IN_URL_TEMPLATE
+from ural.patterns import QUERY_VALUE_IN_URL_TEMPLATE, PROTOCOL_RE
 from ural.utils import unquote, urljoin
 
 OBVIOUS_REDIRECTS_RE = re.compile(
@@ -68,7 +68,12 @@ def infer_redirection(url, recursive=True):
 
             # Basic relative url
             elif potential_target.startswith("/"):
-                target = urljoin(url, potential_target)
+                # NOTE: joining needs a scheme, else the host of a url given
+                # without protocol is lost
+                if PROTOCOL_RE.match(url.lstrip()):
+                    target = urljoin(url, potential_target)
+                else:
+                    target = urljoin("http://" + url, potential_target)[7:]
 
                 # NOTE: joining a target found in the query always yields a
                 # shorter url. Else the hint was found in the netloc, was kept
